@@ -54,7 +54,7 @@ class NumericalSolver:
                 'exp':CustomOperatorExp, 'sqrt':CustomOperatorSqrt,   'powb':CustomOperatorPowb,
                 'sin':CustomOperatorSin, 'cos':CustomOperatorCos,     'tan':CustomOperatorTan,
                 'par':OperatorPar,  # should be the last of parenthesis operators
-                'pow':OperatorPow,
+                'pow':CustomOperatorPow,
                 'mul':CustomOperatorMul, 'truediv':CustomOperatorTruediv,
                 'add':CustomOperatorAdd, 'sub':CustomOperatorSub,
             }
@@ -134,6 +134,12 @@ class CustomOperatorSub(OperatorSub):
         if not left.baseunits.nodim:
             right.to(left.baseunits)
         tokens.put_left(left - right)
+
+class CustomOperatorPow(OperatorPow):
+    def operate_binary(self, tokens):
+        # the exponent is the plain number of the right operand, as in pow(a,b)
+        left, right = tokens.get_left(), tokens.get_right()
+        tokens.put_left(np.power(left, right.value()))
 
 class CustomOperatorMul(OperatorMul):
     symbol: str = ' * '
